@@ -34,3 +34,98 @@ pub fn lex(case: &Value) -> Value {
     let kinds: Vec<String> = merged.iter().map(|t| format!("{:?}", t.kind())).collect();
     json!({"printed": p1, "byte_len": l1, "printed_stream": p2, "byte_len_stream": l2, "shape_ok": ok1 && ok2, "kinds": kinds})
 }
+
+fn shape(node: &vhdl_syntax::syntax::node::SyntaxNode) -> String {
+    use vhdl_syntax::syntax::node::SyntaxElement;
+    let mut out = format!("({:?}", node.kind());
+    for child in node.children_with_tokens() {
+        match child {
+            SyntaxElement::Node(n) => out.push_str(&shape(&n)),
+            SyntaxElement::Token(t) => out.push_str(&format!(" {:?}/{}", t.kind(), t.byte_len())),
+        }
+    }
+    out.push(')');
+    out
+}
+
+/// {"bytes": [..], "target": k, "newbyte": b} -> parse, print, offsets, error spans, identity rewrites, one token replacement
+pub fn tree(case: &Value) -> Value {
+    use vhdl_syntax::syntax::node::{SyntaxElement, SyntaxToken};
+    use vhdl_syntax::syntax::rewrite::{RewriteAction, TokenRewrite, TokenRewriteAction, TokenRewriter};
+    use vhdl_syntax::syntax::AstNode;
+    let bytes = bytes_of(case);
+    let (file, diags) = vhdl_syntax::parser::parse(vhdl_syntax::tokens::TokenStream::from(&bytes[..]));
+    let root = file.raw();
+    let print = |n: &vhdl_syntax::syntax::node::SyntaxNode| {
+        let mut out = Vec::new();
+        n.write_to(&mut out).unwrap();
+        out
+    };
+    let printed = print(&root);
+    let mut tiles = true;
+    let mut spans = Vec::new();
+    fn walk(n: &vhdl_syntax::syntax::node::SyntaxNode, mut at: usize, tiles: &mut bool, spans: &mut Vec<(usize, usize, usize)>) -> usize {
+        use vhdl_syntax::syntax::node::SyntaxElement;
+        if n.offset() != at {
+            *tiles = false;
+        }
+        let start = at;
+        for child in n.children_with_tokens() {
+            match child {
+                SyntaxElement::Node(c) => at = walk(&c, at, tiles, spans),
+                SyntaxElement::Token(t) => {
+                    if t.offset() != at {
+                        *tiles = false;
+                    }
+                    spans.push((t.offset(), t.byte_len(), t.token().text_len()));
+                    at = t.offset() + t.byte_len();
+                }
+            }
+        }
+        if n.byte_len() != at - start {
+            *tiles = false;
+        }
+        at
+    }
+    let at = walk(&root, 0, &mut tiles, &mut spans);
+    if at != bytes.len() {
+        tiles = false;
+    }
+    let spans_ok = diags.iter().all(|d| d.span().start <= d.span().end && d.span().end <= bytes.len());
+    let leave = root.rewrite(|_| RewriteAction::Leave);
+    struct Keep;
+    impl TokenRewrite for Keep {
+        fn token(&mut self, _t: &SyntaxToken) -> TokenRewriteAction {
+            TokenRewriteAction::Keep
+        }
+    }
+    let keep = TokenRewriter::new(Keep).rewrite(root.clone());
+    let target = case["target"].as_u64().unwrap_or(0) as usize;
+    let newbyte = case["newbyte"].as_u64().unwrap_or(0) as u8;
+    let (replaced, expected) = if spans.len() > 1 && target < spans.len() - 1 {
+        let mut seen = 0;
+        let new_text = vec![0x51u8, newbyte];
+        let r = root.rewrite(|el| match el {
+            SyntaxElement::Token(t) => {
+                let k = seen;
+                seen += 1;
+                if k == target {
+                    RewriteAction::Change(SyntaxElement::Token(t.clone_with_text(&new_text[..])))
+                } else {
+                    RewriteAction::Leave
+                }
+            }
+            _ => RewriteAction::Leave,
+        });
+        let (off, len, text_len) = spans[target];
+        let mut exp = printed[..off + len - text_len].to_vec();
+        exp.extend_from_slice(&new_text);
+        exp.extend_from_slice(&printed[off + len..]);
+        (Some(print(&r)), Some(exp))
+    } else {
+        (None, None)
+    };
+    json!({"printed": printed, "byte_len": root.byte_len(), "tiles": tiles, "spans_ok": spans_ok, "ndiag": diags.len(),
+           "leave": print(&leave), "keep": print(&keep), "leave_same_shape": shape(&leave) == shape(&root), "keep_same_shape": shape(&keep) == shape(&root),
+           "replaced": replaced, "replaced_expected": expected})
+}
